@@ -764,7 +764,10 @@ public:
           J.attribute("t", It->second);
         J.attribute("tk", T->getStmtClassName());
       }
-      if (const Stmt *TC = B->getTerminatorCondition()) {
+      const Stmt *TCs = B->getLastCondition();
+      if (!TCs)
+        TCs = B->getTerminatorCondition();
+      if (const Stmt *TC = TCs) {
         auto It = Ids.find(TC);
         if (It == Ids.end())
           It = Ids.find(skip(TC));
